@@ -795,9 +795,10 @@ impl Authenticator {
     spec fn alg(&self) -> int { self.cipher.alg() }
     spec fn key(&self) -> Seq<u8> { self.cipher.key() }
     spec fn cnt(&self) -> u16 { self.counting.count }
-    spec fn wf(&self) -> bool { self.counting.nonce_size == 12 }
+    spec fn wf(&self) -> bool { self.counting.nonce_size == 12 && self.cipher.alg() < 4 }
     spec fn same_key(&self, o: &Authenticator) -> bool { self.alg() == o.alg() && self.key() == o.key() && self.wf() == o.wf() }
     fn new(cipher: CipherMethod) -> (r: Self)
+        requires cipher.alg() < 4,
         ensures r.alg() == cipher.alg(), r.key() == cipher.key(), r.wf(),
             //#C12 C03
             r.cnt() == 0,
